@@ -1853,7 +1853,8 @@ public:
     crab::CrabStats::count(domain_name() + ".count.forget");
     crab::ScopedCrabStats __st__(domain_name() + ".forget");
 
-    if (is_bottom() || is_top()) {
+    // (the value can be top while the Boolean-to-constraint tables are not empty)
+    if (is_bottom()) {
       return;
     }
 
@@ -1895,7 +1896,8 @@ public:
     crab::CrabStats::count(domain_name() + ".count.project");
     crab::ScopedCrabStats __st__(domain_name() + ".project");
 
-    if (is_bottom() || is_top()) {
+    // (the value can be top while the Boolean-to-constraint tables are not empty)
+    if (is_bottom()) {
       return;
     }
 
@@ -1919,7 +1921,8 @@ public:
 
   void rename(const variable_vector_t &from,
               const variable_vector_t &to) override {
-    if (is_bottom() || is_top()) {
+    // (the value can be top while the Boolean-to-constraint tables are not empty)
+    if (is_bottom()) {
       return;
     }
     
@@ -1954,7 +1957,8 @@ public:
     crab::CrabStats::count(domain_name() + ".count.expand");
     crab::ScopedCrabStats __st__(domain_name() + ".expand");
 
-    if (is_bottom() || is_top()) {
+    // (the value can be top while the Boolean-to-constraint tables are not empty)
+    if (is_bottom()) {
       return;
     }
 
